@@ -27,6 +27,18 @@ R3  code->spec: seeded random histories (50 calls, dimension <= 5, wider alphabe
     their defining equations (Cramer on the Gram matrix), unimodular-style integer inverses,
     powers, determinants, and Hadamard-planted spectra for EigenSym / Eigen / SVD, replayed on
     Dense.Solve, VecDense.SolveVec, QR, LQ, SVD, LU, Dense.Inverse, Dense.Pow, mat.Det/LogDet.
+    Matrix functions (ExpPow.tla): Dense.Exp on nilpotent dyadic matrices (finite exponential series evaluated
+    by TLC; the norm is placed at / just above every threshold of the Pade / scaling-and-squaring algorithm and
+    the run is undecided unless all 13 paths were executed), Dense.Pow (repeated product, exact), SymDense.PowPSD
+    (Hadamard-planted spectra, exponents r/6), in every receiver / operand mode.
+    Destinations and operands (Extract.tla, extends Planted.tla): every accessor of every factorization type into
+    an empty / pre-sized junk / window-of-a-larger-junk-matrix / wrong destination, every Matrix / Vector /
+    Symmetric argument of every Factorize / Solve / update entry point as plain, strided window, transposed,
+    interface-only; the expected values are the planted instance's predicates.
+    GSVD (Gsvd.tla): the property's clause as the normative predicate GsvdHolds (TLC checks it on planted exact
+    decompositions and refutes it on corrupted ones), evaluated by the harness in exact rationals on what
+    mat.GSVD returned for every pair shape m,p<=4, n<=5 (generic, rank deficient, zero / duplicated leading
+    columns), every subset of the job flags, every destination mode.  The weaker binding: a predicate, not a value.
 """
 import os
 
@@ -80,11 +92,27 @@ def run(ctx):
                                  subst=dict(SEED=seed, MAXEX=3 if thorough else 2, EMIT="TRUE"),
                                  name="R2 gen reuse histories of one object, 12 types (HistoryIndependent checked)")
 
-    ctx.parallel([r1, gen_chol, gen_lu(0), gen_lu(1), gen_planted, gen_reuse], width=4)
+    def gen_exppow():
+        files["exppow"] = ctx.gen("matfactor/ExpPow.tla", "matfactor/ExpPow.cfg",
+                                  subst=dict(SEED=seed, NVARIANTS=4 if thorough else 2, EMIT="TRUE"),
+                                  name="R2 gen Exp (nilpotent, every Pade / squaring branch) / Pow / PowPSD (theorems checked per case)")
+
+    def gen_extract():
+        files["extract"] = ctx.gen("matfactor/Extract.tla", "matfactor/Extract.cfg",
+                                   subst=dict(SEED=seed, NVARIANTS=4 if thorough else 2, EMIT="TRUE"),
+                                   name="R2 gen destinations x operand representations of every accessor / solve / update entry point")
+
+    def gen_gsvd():
+        files["gsvd"] = ctx.gen("matfactor/Gsvd.tla", "matfactor/Gsvd.cfg",
+                                subst=dict(SEED=seed, NVARIANTS=3 if thorough else 1, EMIT="TRUE"),
+                                name="R2 gen GSVD pairs m,p<=4 n<=5 with exact ranks (GsvdHolds checked on planted / corrupted decompositions)")
+
+    ctx.parallel([r1, gen_chol, gen_lu(0), gen_lu(1), gen_planted, gen_reuse, gen_exppow, gen_extract, gen_gsvd], width=4)
 
     # ---- R2: replay on the real objects ----------------------------------------------------
     nsh = 4
     thunks = []
+    exppow_summ = {}
     for bn, _ in builds:
         for sh in range(nsh):
             thunks.append(lambda bn=bn, sh=sh: ctx.replay(
@@ -98,7 +126,21 @@ def run(ctx):
                                                name="R2 replay reuse histories (re-Factorize / Reset / Clone of a used object) [%s]" % bn))
         thunks.append(lambda bn=bn: ctx.replay(bins[bn], "matfactor-planted", files["planted"], [],
                                                name="R2 replay planted instances [%s]" % bn))
+        thunks.append(lambda bn=bn: exppow_summ.__setitem__(bn, ctx.replay(
+            bins[bn], "matfactor-exppow", files["exppow"], [], name="R2 replay Exp / Pow / PowPSD [%s]" % bn)))
+        thunks.append(lambda bn=bn: ctx.replay(bins[bn], "matfactor-extract", files["extract"], [],
+                                               name="R2 replay destinations x operand representations [%s]" % bn))
+        thunks.append(lambda bn=bn: ctx.replay(bins[bn], "matfactor-gsvd", files["gsvd"], [],
+                                               name="R2 replay GSVD predicate (GsvdHolds) [%s]" % bn))
     ctx.parallel(thunks, width=6)
+    # non-vacuity of the Exp family: every path of the scaling-and-squaring algorithm must have been executed
+    need = ["exp_branch_pade%d_sq0" % o for o in (3, 5, 7, 9, 13)] + ["exp_branch_pade13_sq%d" % j for j in range(1, 8)] \
+        + ["exp_branch_pade13_norm_at_most_half_theta13"]
+    for bn, summ in exppow_summ.items():
+        missing = [n for n in need if not summ.get("extra", {}).get(n)]
+        if missing:
+            from vlib import Undecided
+            raise Undecided("vacuous: Exp norm classes never executed [%s]: %s" % (bn, missing))
 
     # ---- R3: recorded random histories of the real objects, validated by TLC -----------------
     import shutil
@@ -134,6 +176,14 @@ def run(ctx):
         "reuse part: the rule 'observables after Factorize(i) do not depend on the history' is the specification's; the "
         "harness realises 'the observables of <<Factorize(i)>>' by a fresh object (whose correctness on such instances is "
         "what the planted and machine parts check) and compares complete logs bit for bit",
+        "Exp: entrywise tolerance 256 n eps ceil|N| sum_k ceil|N|^k/k! (the relative condition number of exp at N is at "
+        "least |N|); PowPSD: 64 n eps cond(A) |A^(r/6)|; Pow: exact (all powers below 2^20); GSVD / HOGSVD: no unique "
+        "expected value - the spec-stated predicate (GsvdHolds; M_i = U_i S_i V^T) is evaluated in math/big.Rat on the "
+        "returned factors with tolerance 64 max(m,p,n) 4eps (|A|+|B|+1); GSVD.Rank is only counted against the exact ranks; "
+        "the 'cause' field of a GSVD pair selects the failure signature only",
+        "Extract: accessor results are judged by the planted instance's predicates (reconstruction, orthogonality, exact "
+        "structural zeros, Cramer solutions), the destination contract (shape, panic class, receiver unchanged, junk bit "
+        "pattern outside the window) by the specification's Shape / Modes operators",
         "a boundary update (some leading minor exactly 0) may answer either way; an LU update that is not representable "
         "with the kept pivots, or whose result is singular, must only not return a finite wrong answer silently",
     ]
